@@ -102,6 +102,8 @@ def c11(tier, seed):
         {'line': './pargs $(sh -c "echo o; echo e >&2") 2> err; cat err', 'files': {'pargs': PARGS}, 'expect_stdout': '[o]\n', 'area': 'substitution:stderr'},
         {'line': "./pargs '$(echo a)' '`echo a`'", 'files': {'pargs': PARGS}, 'expect_stdout': _argv(['$(echo a)', '`echo a`']), 'area': 'substitution:single-quoted'},
         {'line': 'alias zz="echo al"; ./pargs $(zz)', 'files': {'pargs': PARGS}, 'expect_stdout': _argv(['al']), 'area': 'substitution:alias'},
+        # a builtin as the last stage of a substituted pipeline
+        {'line': 'alias zq=1; ./pargs "$(echo x | alias)"', 'files': {'pargs': PARGS}, 'expect_stdout_contains': 'zq', 'area': 'substitution:pipeline-ending-in-a-builtin'},
         # only trailing newlines are removed: blanks at either end belong to the output
         {'line': './pargs "[$(./ws)]" "[`./ws`]" "`./ws`"', 'files': {'pargs': PARGS, 'ws': "#!/bin/sh\nprintf '  x  \\n\\n'\n"}, 'expect_stdout': _argv(['[  x  ]', '[  x  ]', '  x  ']), 'area': 'substitution:blanks-kept'},
         # the inner command's stderr is not part of the result and is not lost
@@ -409,6 +411,15 @@ def c04(tier, seed):
         {'line': 'echo b > f; echo --; cat f', 'files': F, 'expect_stdout': '--\nb\n', 'area': 'redirect:builtin'},
         {'line': 'echo b >> f; echo c >> f; cat f', 'files': F, 'expect_stdout': 'b\nc\n', 'area': 'redirect:builtin-append'},
         {'line': 'alias zq=1; alias > f; echo --; cat f', 'files': F, 'expect_stdout_prefix': '--\n', 'expect_stdout_contains': 'zq', 'area': 'redirect:builtin'},
+        # a builtin that prints nothing still creates / truncates its `>` target; `>>` keeps it
+        {'line': 'echo old > g; alias foo=bar > g; echo --; cat g', 'files': F, 'expect_stdout': '--\n', 'area': 'redirect:builtin:truncate-without-output'},
+        {'line': 'echo old > g; alias foo=bar >> g; cat g', 'files': F, 'expect_stdout': 'old\n', 'area': 'redirect:builtin:truncate-without-output'},
+        # a `<` file that cannot be opened fails the builtin without running it
+        {'line': 'alias zq=1; alias < /nonexistent-dir/x; echo st=$?', 'files': F, 'expect_stdout_not_contains': 'zq', 'expect_stdout_last_line_not': 'st=0', 'area': 'redirect:builtin:unopenable-input'},
+        # a builtin's redirection also holds inside $(...)
+        {'line': 'alias zq=1; echo "[$(alias > f9)]"; cat f9', 'files': F, 'expect_stdout_prefix': '[]\n', 'expect_stdout_contains': 'zq', 'area': 'redirect:builtin:captured'},
+        # several input redirections: the last one on the line is in effect
+        {'line': 'cat <<< word < inf; cat < inf <<< word2', 'files': dict(F, inf='FROMFILE\n'), 'expect_stdout': 'FROMFILE\nword2\n', 'area': 'redirect:stdin:last-wins'},
         {'line': 'alias nosuch-zz 2> f; echo --; cat f', 'files': F, 'expect_stdout_prefix': '--\n', 'expect_stdout_contains': 'nosuch-zz', 'area': 'redirect:builtin-stderr'},
         {'line': 'alias nosuch-zz > f 2>&1; echo --; cat f', 'files': F, 'expect_stdout_prefix': '--\n', 'expect_stdout_contains': 'nosuch-zz', 'area': 'redirect:builtin-dup'},
         {'line': 'echo b > f; echo after', 'files': F, 'expect_stdout': 'after\n', 'area': 'redirect:builtin-later-command-unaffected'},
@@ -465,6 +476,7 @@ def c09(tier, seed):
         {'line': 'read a <<< "x y z"; ./pargs "$a"', 'files': F, 'expect_stdout': _argv(['x y z']), 'area': 'read'},
         {'line': 'b=old; c=old; read a b c <<< "1"; ./pargs "[$a]" "[$b]" "[$c]"', 'files': F, 'expect_stdout': _argv(['[1]', '[]', '[]']), 'area': 'read:fewer-fields-than-names'},
         {'line': 'read a b <<< "1 2"; ./pargs "$a" "$b"', 'files': F, 'expect_stdout': _argv(['1', '2']), 'area': 'read'},
+        {'line': 'read a b <<< "x  y z"; ./pargs "$a" "$b"; read c <<< "  q  "; ./pargs "$c"', 'files': F, 'expect_stdout': _argv(['x', 'y z']) + _argv(['q']), 'area': 'read:runs-of-blanks'},
         {'line': 'read a b c d <<< "1 2 3 4"; ./pargs "$a$b$c$d"', 'files': F, 'expect_stdout': _argv(['1234']), 'area': 'read'},
         {'line': 'mkdir -p d1/d2; cd d1/d2; basename $PWD; pwd | xargs basename; sh -c "basename \\$PWD"', 'files': F, 'expect_stdout': 'd2\nd2\nd2\n', 'area': 'cd:relative'},
         {'line': 'mkdir -p d1/d2; cd d1/d2; cd ..; basename $PWD; cd ..; cd d1; echo x > rel; cat d2/../rel', 'files': F, 'expect_stdout': 'd1\nx\n', 'area': 'cd:dotdot'},
@@ -530,6 +542,10 @@ def c15(tier, seed):
         {'script': 'function f() {\n    echo in-f\n}\nset -e\nf\n./st b 3\necho c\n', 'files': F, 'expect_stdout': 'in-f\nb\n', 'expect_rc': 3, 'area': 'set-e:after-function-call'},
         {'script': 'function f() {\n    ./st in-f 4\n    echo not-reached\n}\nset -e\nf\necho c\n', 'files': F, 'expect_stdout': 'in-f\n', 'expect_rc': 4, 'area': 'set-e:inside-function'},
         {'script': 'set -e\n./st a 0\n./st b 0\n', 'files': F, 'expect_stdout': 'a\nb\n', 'expect_rc': 0, 'area': 'set-e'},
+        # ... also in the middle of a line, and after a file was sourced; a failure inside an && / || list that goes on is not one
+        {'script': 'set -e\n./st a 4; ./st no 0\necho no2\n', 'files': F, 'expect_stdout': 'a\n', 'expect_rc': 4, 'area': 'set-e:middle-of-a-line'},
+        {'script': 'set -e\n./st a 4 && ./st no 0; ./st b 0\n./st c 5 || ./st d 0; ./st e 0\n./st f 0 && ./st g 6; ./st no 0\necho no2\n', 'files': F, 'expect_stdout': 'a\nb\nc\nd\ne\nf\ng\n', 'expect_rc': 6, 'area': 'set-e:middle-of-a-line'},
+        {'script': 'set -e\nsource lib.sh\n./st a 3\necho no\n', 'files': dict(F, **{'lib.sh': 'echo inner\n'}), 'expect_stdout': 'inner\na\n', 'expect_rc': 3, 'area': 'set-e:after-source'},
         # set -e at every kind of position: the failing command ends the script wherever it stands
         {'script': 'set -e\nif true\n    ./st a 4\n    echo no1\nfi\necho no2\n', 'files': F, 'expect_stdout': 'a\n', 'expect_rc': 4, 'area': 'set-e:inside-if'},
         {'script': 'set -e\nif false\n    echo no\nelse\n    ./st a 4\n    echo no1\nfi\necho no2\n', 'files': F, 'expect_stdout': 'a\n', 'expect_rc': 4, 'area': 'set-e:inside-else'},
@@ -634,6 +650,10 @@ def c01(tier, seed):
                       ("./pargs '#not a comment' # a comment", ['#not a comment']), ("./pargs 'a' ; ./pargs \"b\" & wait", None)):
         if exp is not None:
             out.append({'line': line, 'files': {'pargs': PARGS}, 'expect_stdout': _argv(exp), 'area': 'argv:mixed', 'timeout': 5})
+    # an escaped blank or a multi-byte blank at the very end of a command is a character of the last argument
+    for line, exps in (('./pargs a\\ ', [['a ']]), ('./pargs a\\ ; ./pargs b', [['a '], ['b']]), ('./pargs \\ ', [[' ']]), ('./pargs a\u3000', [['a\u3000']]),
+                       ('  ./pargs q   &&   ./pargs r  ', [['q'], ['r']]), ('./pargs a\\\\ ', [['a\\']])):
+        out.append({'line': line, 'files': {'pargs': PARGS}, 'expect_stdout': ''.join(_argv(e) for e in exps), 'area': 'argv:escaped:blank-at-the-end', 'timeout': 5})
     return out
 
 
@@ -726,6 +746,14 @@ def c06(tier, seed):
          'expect': ['table [id=1 jid=1 gid=10 status=Running bg=1 pids=[11, 12] stopped=[11]]'],
          'area': 'job-table:status:stale-stopped-entry', 'id': 'stopped member dies, another stops, a third still runs'},
     ]
+    # stop / continue events of a background process that arrive while the shell waits for the foreground job: the latest one decides, at every later poll
+    T_S = 'table [id=1 jid=1 gid=30 status=Stopped bg=1 pids=[30] stopped=[30]]'
+    T_R = 'table [id=1 jid=1 gid=30 status=Running bg=1 pids=[30] stopped=[]]'
+    for evs, final in ((['30,3,0', '30,2,19'], T_S), (['30,2,19', '30,3,0'], T_R), (['30,2,19', '30,3,0', '30,2,19'], T_S), (['30,3,0'], T_R)):
+        pre = ['insert 30 30 1', 'jc_member_stopped 30 30'] if evs[0].startswith('30,3') else ['insert 30 30 1']
+        out.append({'via': 'hook', 'script': pre + ['insert 20 20 0', 'events ' + ' '.join(evs + ['20,0,0']), 'wait_fg 20 20', 'poll', 'dump', 'poll', 'dump'],
+                    'expect': ['wait_fg status=0 pending=0', 'poll pending=0', final, 'poll pending=0', final],
+                    'area': 'events:latest-stop-or-continue-decides', 'id': 'parked ' + ' '.join(evs)})
     # the foreground wait returns when every member has exited or is stopped, whatever the order of the events; status = last member's
     waits = [
         (['20,2,19', '20,3,0', '20,0,0', '21,0,7'], 'wait_fg status=7 pending=0'),
